@@ -57,6 +57,10 @@ type LoadOpts struct {
 // Load loads ./... in opts.Dir.
 func Load(opts LoadOpts) (*Program, error) {
 	t0 := time.Now()
+	// go/packages resolves the "go" binary through this process's PATH.
+	if !strings.HasPrefix(os.Getenv("PATH"), GoBin+":") {
+		os.Setenv("PATH", GoBin+":"+os.Getenv("PATH"))
+	}
 	env := []string{}
 	for _, e := range os.Environ() {
 		if strings.HasPrefix(e, "PATH=") || strings.HasPrefix(e, "GOWORK=") || strings.HasPrefix(e, "GOFLAGS=") ||
